@@ -74,6 +74,67 @@ pub fn search(_v: &serde_json::Value) -> i32 {
         n += 1;
         if let Some(w) = check_file(&[g1, g2], nl, eol) { println!("witness: {w}"); return 1; }
     } } }
-    println!("no failing input among {n} files");
+    if let Some(w) = search_includes() { println!("witness: {w}"); return 1; }
+    println!("no failing input among {n} single files and 675 base+include pairs");
     0
+}
+
+// ---- base file + included file (in-memory FileReader) ----
+use riscv_analysis::parser::RVParser;
+use riscv_analysis::reader::{FileReader, FileReaderError};
+use std::collections::HashMap;
+use uuid::Uuid;
+
+#[derive(Default, Clone)]
+struct MemReader { disk: HashMap<String, String>, read: HashMap<Uuid, String>, base: Option<Uuid> }
+impl FileReader for MemReader {
+    fn import_file(&mut self, path: &str, _parent: Option<Uuid>) -> Result<(Uuid, String), FileReaderError> {
+        if self.read.values().any(|p| p == path) { return Err(FileReaderError::FileAlreadyRead(path.to_string())); }
+        let text = self.disk.get(path).ok_or(FileReaderError::InvalidPath)?.clone();
+        let id = Uuid::new_v4();
+        self.read.insert(id, path.to_string());
+        self.base.get_or_insert(id);
+        Ok((id, text))
+    }
+    fn get_text(&self, uuid: Uuid) -> Option<String> { self.disk.get(self.read.get(&uuid)?).cloned() }
+    fn get_filename(&self, uuid: Uuid) -> Option<String> { self.read.get(&uuid).cloned() }
+    fn get_base_file(&self) -> Option<Uuid> { self.base }
+}
+
+/// every non-blank line of both files yields a node or an error located on it IN THAT FILE
+fn check_two_files(main: &[&str], util: &[&str]) -> Option<String> {
+    let mut disk = HashMap::new();
+    disk.insert("main.s".to_string(), main.join("\n") + "\n");
+    disk.insert("util.s".to_string(), util.join("\n") + "\n");
+    let res = catch_unwind(AssertUnwindSafe(|| {
+        let mut parser = RVParser::new(MemReader { disk, ..Default::default() });
+        let (nodes, errors) = parser.parse_from_file("main.s", false);
+        let name = |id: Uuid| parser.reader.get_filename(id).unwrap_or_default();
+        let n: Vec<(String, usize)> = nodes.iter().filter(|n| !matches!(n, ParserNode::ProgramEntry(_))).map(|n| (name(n.file()), n.range().start().zero_idx_line())).collect();
+        let e: Vec<(String, usize)> = errors.iter().map(|e| (name(e.file()), e.range().start().zero_idx_line())).collect();
+        (n, e)
+    }));
+    let (nodes, errors) = match res { Ok(x) => x, Err(_) => return Some(format!("parser panicked on main.s = {main:?}, util.s = {util:?}")) };
+    for (fname, lines) in [("main.s", main), ("util.s", util)] {
+        for (i, l) in lines.iter().enumerate() {
+            let content = l.split('#').next().unwrap_or("").trim();
+            if content.is_empty() || content.starts_with(".include") { continue; }
+            let here = |v: &Vec<(String, usize)>| v.iter().any(|(f, k)| f == fname && *k == i);
+            if !here(&nodes) && !here(&errors) {
+                return Some(format!("line {i} ({l:?}) of {fname} produced neither a node nor a parse error located on it (main.s = {main:?}, util.s = {util:?})"));
+            }
+        }
+    }
+    None
+}
+
+pub fn search_includes() -> Option<String> {
+    let bads = ["foo t0, t1", "bar t1, t2", ".bogus 3", "addi t0, t0, zz", "add t0, t1, @"];
+    for b1 in bads { for b2 in bads { for g in GOOD {
+        for (main, util) in [(vec![b1, ".include \"util.s\"", g], vec![b2, g]), (vec![g, b1, ".include \"util.s\""], vec![g, b2]),
+                             (vec![".include \"util.s\"", b1, g], vec![b2])] {
+            if let Some(w) = check_two_files(&main, &util) { return Some(w); }
+        }
+    } } }
+    None
 }
